@@ -17,7 +17,7 @@ struct Session {
 	std::string acct_error;  // first accounting violation seen
 	bool keep_output = true;
 
-	explicit Session(const lzma_allocator *al = nullptr) { s.allocator = al; }
+	explicit Session(const lzma_allocator *al = nullptr) { s.allocator = al; if (g_dirty.kind) dirty_preuse(&s); }
 	void set_input(const Bytes *b) { in = b; in_pos = 0; }
 	size_t in_limit = (size_t)-1;   // end of the input segment currently on offer
 	size_t in_left() const
